@@ -85,6 +85,15 @@ func caseVariants(s string, locked []bool, maxAll int, f func(v string) bool) (i
 // does not change that context's verdict).
 const c11Hide = "\"a='b=`c=\""
 
+// c11FragNow: the fragment alphabet plus the (lower-cased) literals the tree under test has in addition to the pinned tree.
+func c11FragNow() []string {
+	var extra []string
+	for _, a := range uniq(alpha.DeltaHTML(), newByteAtoms()) {
+		extra = append(extra, asciiLower(a))
+	}
+	return uniq(c11Frag, extra)
+}
+
 func evalC11CaseIsolated(w *fw.W, s, aux string) {
 	if strings.ContainsAny(s, "'\"`") {
 		return
@@ -202,8 +211,8 @@ func init() {
 				Run: func(w *fw.W) { w.Trie(alpha.H1core, 5, w.Pick(5, 6)) }, Eval: evalC11Case},
 			{Name: "case-trie-H1-data-isolated", Space: "hiding prefix + lower-case quote-free strings of H1^<=5 x case assignments: only the element-content context can fire (quick <=3, thorough <=4)", Share: 3,
 				Run: func(w *fw.W) { w.Trie(alpha.H1, 1, w.Pick(3, 4)) }, Eval: evalC11CaseIsolated},
-			{Name: "case-trie-fragments", Space: "fragment alphabet (H2 + event/URL/scheme/doctype names)^<=3 (quick) / <=4 (thorough) x case assignments", Share: 4,
-				Run: func(w *fw.W) { w.Trie(c11Frag, 1, w.Pick(3, 4)) }, Eval: evalC11Case},
+			{Name: "case-trie-fragments", Space: "fragment alphabet (H2 + event/URL/scheme/doctype names + new literals of the tree under test)^<=3 (quick) / <=4 (thorough) x case assignments", Share: 4,
+				Run: func(w *fw.W) { w.Trie(c11FragNow(), 1, w.Pick(3, 4)) }, Eval: evalC11Case},
 			{Name: "case-vectors", Space: "every C04 grammar vector x case assignments", Share: 2,
 				Run: func(w *fw.W) { w.Each(len(vectors), func(i int) { w.Item(asciiLower(vectors[i]), "") }) }, Eval: evalC11Case},
 			{Name: "case-scheme-tails", Space: "every URL attribute x 4 schemes x tail in {each letter of the scheme, the scheme again, x} x 2 quotings x case assignments: a later occurrence of a scheme letter in the other case must not hide the scheme", Share: 1,
@@ -238,7 +247,7 @@ func init() {
 			{Name: "nul-trie-H1core-deep", Space: "H1core^5 (quick) / ^5..6 (thorough) x 5 contexts x interior positions of name tokens", Share: 3,
 				Run: func(w *fw.W) { w.Trie(alpha.H1core, 5, w.Pick(5, 6)) }, Eval: evalC11Nul},
 			{Name: "nul-trie-fragments", Space: "fragment alphabet^<=3 (quick) / <=4 (thorough) x 5 contexts x interior positions", Share: 3,
-				Run: func(w *fw.W) { w.Trie(c11Frag, 1, w.Pick(3, 4)) }, Eval: evalC11Nul},
+				Run: func(w *fw.W) { w.Trie(c11FragNow(), 1, w.Pick(3, 4)) }, Eval: evalC11Nul},
 			{Name: "nul-vectors", Space: "every C04 grammar vector x 5 contexts x interior positions", Share: 2,
 				Run: func(w *fw.W) { w.Each(len(vectors), func(i int) { w.Item(vectors[i], "") }) }, Eval: evalC11Nul},
 		},
